@@ -1,4 +1,5 @@
 //@@ unit VALUEDE
+//@@ gsubst `.into_iter()` => `.into_iter_s()` rule=R11
 #![feature(allocator_api)]
 #![allow(unused_imports, unused_variables, dead_code, unused_mut, unused_parens)]
 use vstd::prelude::*;
@@ -499,6 +500,10 @@ impl VecIter {
 }
 #[verifier::external_body]
 pub fn vec_into_iter(v: Vec<Value>) -> (r: VecIter) ensures r.rest@ == v@ { unimplemented!() }
+/// `x.into_iter()` on the two collections of the tree (std / indexmap: the elements resp. entries in order), whatever the expression is called
+pub trait IntoIterS: Sized { type It; spec fn yields(self, r: Self::It) -> bool; fn into_iter_s(self) -> (r: Self::It) ensures self.yields(r); }
+impl IntoIterS for Vec<Value> { type It = VecIter; open spec fn yields(self, r: VecIter) -> bool { r.rest@ == self@ } #[verifier::external_body] fn into_iter_s(self) -> (r: VecIter) { unimplemented!() } }
+impl IntoIterS for MapS { type It = MapIter; open spec fn yields(self, r: MapIter) -> bool { r.rest@ == self@ } #[verifier::external_body] fn into_iter_s(self) -> (r: MapIter) { unimplemented!() } }
 #[verifier::external_body]
 pub fn vec_one_into_iter(v: Value) -> (r: VecIter) ensures r.rest@ == seq![v] { unimplemented!() }
 pub struct MapIter { pub rest: Ghost<Seq<(Value, Value)>> }
@@ -861,7 +866,6 @@ impl Deserializer {
 //@@ nowhere
 //@@ param visitor : VisS
 //@@ ret Result<OutS, Error>
-//@@ subst `v.into_iter()` => `vec_into_iter(v)` rule=R11
 //@@ spec
     ensures sp_seq(self, visitor, r),       // [C20.tree.sequence-elements-in-order] a list is read from a List node, an array (Array marker) from an Array node: the access object walks exactly the node's elements, in order
 //@@ end
@@ -902,7 +906,6 @@ impl Deserializer {
 //@@ nowhere
 //@@ param visitor : VisS
 //@@ ret Result<OutS, Error>
-//@@ subst `map.into_iter()` => `map_into_iter(map)` rule=R11
 //@@ spec
     ensures sp_scalar(self.value is Map, VisCall::Map(self.value->Map_0@), visitor, r),       // [C20.tree.map-entries-in-order] a map is read from a Map node: the access object walks exactly the node's entries, in order
 //@@ end
@@ -928,7 +931,6 @@ impl Deserializer {
 //@@ param name : &str
 //@@ param _variants : &[&str]
 //@@ ret Result<OutS, Error>
-//@@ subst `v.into_iter()` => `vec_into_iter(v)` rule=R11
 //@@ subst `vec![v].into_iter()` => `vec_one_into_iter(v)` rule=R11
 //@@ entry
     proof { lemma_names_distinct(); }
